@@ -473,19 +473,57 @@ func ruleT18acc(c *Ctx) {
 		return
 	}
 	found := map[string]bool{}
+	// the body, and the initialisers of the package-level variables and constants it names
+	// (a pattern compiled once outside the function is the same set)
+	srcs := []ast.Node{fd.Body}
 	ast.Inspect(fd.Body, func(x ast.Node) bool {
-		bl, ok := x.(*ast.BasicLit)
-		if !ok || bl.Kind != token.STRING {
+		id, ok := x.(*ast.Ident)
+		if !ok {
 			return true
 		}
-		s, _ := constStr(p.TypesInfo, bl)
-		for _, w := range splitWords(s) {
-			if _, isReg := o.Registers[strings.ToUpper(w)]; isReg {
-				found[strings.ToUpper(w)] = true
+		obj := p.TypesInfo.Uses[id]
+		if obj == nil || obj.Pkg() != p.Types || obj.Parent() != p.Types.Scope() {
+			return true
+		}
+		if _, isFn := obj.(*types.Func); isFn {
+			return true
+		}
+		for _, file := range p.Syntax {
+			for _, d := range file.Decls {
+				gd, ok := d.(*ast.GenDecl)
+				if !ok {
+					continue
+				}
+				for _, sp := range gd.Specs {
+					vs, ok := sp.(*ast.ValueSpec)
+					if !ok {
+						continue
+					}
+					for i, nm := range vs.Names {
+						if p.TypesInfo.Defs[nm] == obj && i < len(vs.Values) {
+							srcs = append(srcs, vs.Values[i])
+						}
+					}
+				}
 			}
 		}
 		return true
 	})
+	for _, src := range srcs {
+		ast.Inspect(src, func(x ast.Node) bool {
+			bl, ok := x.(*ast.BasicLit)
+			if !ok || bl.Kind != token.STRING {
+				return true
+			}
+			s, _ := constStr(p.TypesInfo, bl)
+			for _, w := range splitWords(s) {
+				if _, isReg := o.Registers[strings.ToUpper(w)]; isReg {
+					found[strings.ToUpper(w)] = true
+				}
+			}
+			return true
+		})
+	}
 	var names []string
 	for k := range found {
 		names = append(names, k)
@@ -631,6 +669,59 @@ var e7dConfirmed = map[string]string{
 	"internal/codegen.handleDD|strconv.Atoi": "as handleDB",
 }
 
+// e7dOnlyConfirmedCallers: every call site of f is in a confirmed emitter (same parse
+// function) and hands f one of that emitter's own parameters; "" when that is not so.
+func e7dOnlyConfirmedCallers(c *Ctx, f *ssa.Function, parse string) string {
+	var via []string
+	sites := 0
+	for _, g := range c.L.RepoFuncs() {
+		if pkgRel(g) == "test" {
+			continue
+		}
+		for _, b := range g.Blocks {
+			for _, in := range b.Instrs {
+				for _, op := range in.Operands(nil) {
+					if *op != ssa.Value(f) {
+						continue
+					}
+					call, isCall := in.(*ssa.Call)
+					if !isCall || call.Call.StaticCallee() != f {
+						return "" // address taken
+					}
+					sites++
+					if _, ok := e7dConfirmed[shortName(g)+"|"+parse]; !ok {
+						return ""
+					}
+					fromParam := false
+					for _, a := range call.Call.Args {
+						if _, isP := a.(*ssa.Parameter); isP && isStringSliceType(a.Type()) {
+							fromParam = true
+						}
+					}
+					if !fromParam {
+						return ""
+					}
+					via = append(via, shortName(g))
+				}
+			}
+		}
+	}
+	if sites == 0 {
+		return ""
+	}
+	sort.Strings(via)
+	return strings.Join(via, ", ")
+}
+
+func isStringSliceType(t types.Type) bool {
+	sl, ok := t.Underlying().(*types.Slice)
+	if !ok {
+		return false
+	}
+	b, ok := sl.Elem().Underlying().(*types.Basic)
+	return ok && b.Kind() == types.String
+}
+
 func ruleE7d(c *Ctx) {
 	c.doc("E7d", "an emitter that converts operand text with strconv (Atoi, ParseInt, ParseUint) looks at the error: a dropped error turns an undefined name or a malformed operand into the value 0 without a diagnostic. Sites where pass 1 provably hands over decimal text are listed with that reason")
 	n := 0
@@ -661,6 +752,11 @@ func ruleE7d(c *Ctx) {
 				if !used {
 					if reason, ok := e7dConfirmed[strings.SplitN(key, "#", 2)[0]]; ok {
 						c.ok("E7d", key, c.L.Pos(instrPos(in)), "confirmed by reading: "+reason)
+						continue
+					}
+					// a helper called only by confirmed emitters inherits their reason
+					if via := e7dOnlyConfirmedCallers(c, f, name); via != "" {
+						c.ok("E7d", key, c.L.Pos(instrPos(in)), "called only from "+via+", confirmed by reading: "+e7dConfirmed["internal/codegen.handleDB|strconv.Atoi"])
 						continue
 					}
 				}
@@ -1160,17 +1256,61 @@ func ruleK6(c *Ctx) {
 		}
 		for _, d := range file.Decls {
 			fd, ok := d.(*ast.FuncDecl)
-			if !ok || fd.Body == nil || (fd.Name.Name != "TokenLiteral" && fd.Name.Name != "ExpToString") {
+			if !ok || fd.Body == nil {
 				continue
 			}
+			serialiser := fd.Name.Name == "TokenLiteral" || fd.Name.Name == "ExpToString"
 			ord := 0
 			ast.Inspect(fd.Body, func(x ast.Node) bool {
 				rs, ok := x.(*ast.RangeStmt)
 				if !ok {
 					return true
 				}
-				sel, ok := rs.X.(*ast.SelectorExpr)
-				if !ok || sel.Sel.Name != "Operators" {
+				// the loop runs over X.Operators in a serialiser, or over a parameter that every
+				// call site binds to Y.Operators (with another parameter bound to Y.TailExps)
+				weight, opsText, tailsText := 0, "", ""
+				if sel, ok := rs.X.(*ast.SelectorExpr); ok && sel.Sel.Name == "Operators" && serialiser {
+					weight, opsText, tailsText = 1, types.ExprString(sel.X)+".Operators", types.ExprString(sel.X)+".TailExps"
+				} else if io := paramIndex(p, fd, rs.X); io >= 0 {
+					sites, tailIdx, okAll := 0, -1, true
+					forCallsOf(p, fd, func(call *ast.CallExpr) {
+						if io >= len(call.Args) {
+							okAll = false
+							return
+						}
+						osel, ok := call.Args[io].(*ast.SelectorExpr)
+						if !ok || osel.Sel.Name != "Operators" {
+							okAll = false
+							return
+						}
+						sites++
+						found := -1
+						for j, a := range call.Args {
+							if tsel, ok := a.(*ast.SelectorExpr); ok && tsel.Sel.Name == "TailExps" && types.ExprString(tsel.X) == types.ExprString(osel.X) {
+								found = j
+							}
+						}
+						if found < 0 || (tailIdx >= 0 && tailIdx != found) {
+							okAll = false
+						}
+						tailIdx = found
+					})
+					if sites > 0 && okAll && tailIdx >= 0 {
+						i := 0
+						for _, fld := range fd.Type.Params.List {
+							for _, nm := range fld.Names {
+								if i == tailIdx && paramIndex(p, fd, nm) == tailIdx {
+									tailsText = nm.Name
+								}
+								i++
+							}
+						}
+						if tailsText != "" {
+							weight, opsText = sites, types.ExprString(rs.X)
+						}
+					}
+				}
+				if weight == 0 {
 					return true
 				}
 				ki, ok1 := rs.Key.(*ast.Ident)
@@ -1179,10 +1319,9 @@ func ruleK6(c *Ctx) {
 					c.fail("K6", fmt.Sprintf("%s|operator loop#%d", fdName(fd), ord+1), c.L.Pos(rs.Pos()), "undecided: the loop over the operators does not bind index and operator")
 					return true
 				}
-				loops++
+				loops += weight
 				ord++
-				owner := types.ExprString(sel.X)
-				key := fmt.Sprintf("%s|operator loop#%d over %s.Operators", fdName(fd), ord, owner)
+				key := fmt.Sprintf("%s|operator loop#%d over %s", fdName(fd), ord, opsText)
 				// sequence of writes in the body
 				var seq []string
 				tailVar := map[string]string{}
@@ -1221,8 +1360,8 @@ func ruleK6(c *Ctx) {
 						seq = append(seq, "?")
 					}
 				}
-				tailA := fmt.Sprintf("ExpToString(%s.TailExps[%s])", owner, ki.Name)
-				tailB := fmt.Sprintf("%s.TailExps[%s].TokenLiteral()", owner, ki.Name)
+				tailA := fmt.Sprintf("ExpToString(%s[%s])", tailsText, ki.Name)
+				tailB := fmt.Sprintf("%s[%s].TokenLiteral()", tailsText, ki.Name)
 				good := len(seq) == 4 && seq[0] == "sep:' '" && seq[1] == "str:"+vi.Name && seq[2] == "sep:' '" && (seq[3] == "str:"+tailA || seq[3] == "str:"+tailB)
 				c.check(good, "K6", key, c.L.Pos(rs.Pos()), fmt.Sprintf("each round must write ' ', the operator, ' ', the tail of the same index; writes: %v", seq))
 				return true
@@ -1280,4 +1419,25 @@ func passThroughParam(f *ssa.Function) int {
 		}
 	}
 	return idx
+}
+
+// forCallsOf visits every call of the package-level function fd inside its own package.
+func forCallsOf(p *packagesPackage, fd *ast.FuncDecl, visit func(*ast.CallExpr)) {
+	fn := p.TypesInfo.Defs[fd.Name]
+	for _, file := range p.Syntax {
+		ast.Inspect(file, func(n ast.Node) bool {
+			call, ok := n.(*ast.CallExpr)
+			if !ok {
+				return true
+			}
+			fun := ast.Unparen(call.Fun)
+			if ix, ok := fun.(*ast.IndexExpr); ok {
+				fun = ix.X
+			}
+			if id, ok := fun.(*ast.Ident); ok && p.TypesInfo.Uses[id] == fn && fn != nil {
+				visit(call)
+			}
+			return true
+		})
+	}
 }
